@@ -9,6 +9,7 @@ import re
 from vlib import core
 from checks import c03
 from checks import c02_probe as probe
+from checks import c02_alias
 
 META = {
     "harness_bins": ["nkeval", "c02"],
@@ -447,6 +448,62 @@ def run_corpus(ck, progs):
             ck.violation("corpus-expectation:" + key, "`%s` gives %s, expected %s" % (p[:220], d[:80], exp), replay)
 
 
+def run_alias(ck, thorough, rng):
+    """Type aliases inside annotations (checks/c02_alias.py): every program in its alias form and
+    with the alias inlined, default and static-full; oracles: tabulated expectation, alias ==
+    inlined, default == static-full."""
+    fam = [("mono", x) for x in c02_alias.family_a()] + [("poly", x) for x in c02_alias.family_b()] \
+        + [("cross", x) for x in c02_alias.family_cross()]
+    if not thorough:
+        # quick: all of the polymorphic family, a seeded third of the (regular) monomorphic one
+        fam = [x for x in fam if x[0] != "mono" or rng.chance(1, 3)]
+    lines = []
+    for _, (key, pa, pi, exp) in fam:
+        for p in (pa, pi):
+            lines.append("full\t" + esc(p))
+            lines.append("full,static-full\t" + esc(p))
+    rc, out, err = c03.run_chunked(core.harness_bin("nkeval"), [], lines)
+    if rc:
+        ck.obligation("impl-run:alias", "internal", False, "rc=%s %s" % (rc, err))
+        return
+    for i, (famname, (key, pa, pi, exp)) in enumerate(fam):
+        a, af, n, nf = out[4 * i:4 * i + 4]
+        ck.case(key="alias:" + key, nontrivial=True)
+        ck.hist("alias_programs", famname + ":" + key.split("/")[-1].rstrip("0123456789"))
+        cls = key.split("/")[0] + "/" + key.split("/")[1]
+        replay = {"program": pa, "inlined": pi, "expected": exp, "alias_default": a, "alias_static_full": af,
+                  "inlined_default": n, "inlined_static_full": nf}
+        if famname == "cross":
+            # scenarios whose expected blame needs the seal of one contract to be closed to the
+            # unseal of another: limitation recorded as C11 key=cross-contract-key
+            bad = [x for x in (a, af, n, nf) if x != exp]
+            if bad and all(x.startswith("OK ") for x in bad):
+                ck.hist("alias_programs", "known-limitation:C11-cross-contract-key")
+                continue
+        if "Typecheck" in a or "Parse" in a or "Typecheck" in n:
+            ck.obligation("generator:ill-typed-alias-program", "internal", False, "%s -> %s / %s" % (pa[:300], a, n))
+            continue
+        if a != af or n != nf:
+            ck.violation("static-differs-from-full:alias:" + cls,
+                         "`%s`: default %s, static-full %s (alias inlined: %s / %s)" % (pa[:200], a[:40], af[:40], n[:40], nf[:40]), replay)
+        elif a != exp and n == exp:
+            if exp == "ERR Blame-" and a == "ERR Blame+":
+                # one class, one key: the typed side is blamed for a violation by the untyped side
+                # as soon as the type is written through an alias
+                ck.violation("alias-blames-typed-side",
+                             "`%s` gives %s: the typed side is blamed for a misuse by the untyped side; with the alias inlined: %s" % (pa[:230], a, n), replay)
+            else:
+                ck.violation("alias-differs-from-inlined:" + cls,
+                             "`%s` gives %s, with the alias inlined %s (expected)" % (pa[:220], a[:60], n[:60]), replay)
+        elif a != exp:
+            ck.violation("alias-program-expectation:" + cls,
+                         "`%s` gives %s, expected %s (alias inlined: %s)" % (pa[:220], a[:60], exp, n[:60]), replay)
+        elif n != exp:
+            ck.violation("inlined-alias-program-expectation:" + cls,
+                         "`%s` gives %s, expected %s" % (pi[:220], n[:60], exp), replay)
+    ck.coverage["alias_programs"] = len(fam)
+
+
 def run(ck):
     ck.coq("Props.C02", clean=False)
     ok = ck.harness(["nkeval", "c02"])
@@ -456,6 +513,7 @@ def run(ck):
     thorough = ck.tier == "thorough"
     rng = core.SplitMix64(ck.seed * 1000003 + 2)
     run_corpus(ck, corpus_programs())
+    run_alias(ck, thorough, rng)
     # syntactic tie
     nt = 100000 if thorough else 3000
     types = []
@@ -484,6 +542,7 @@ def run(ck):
     run_behaviour(ck, cases, exe_model, "generated")
     ck.coverage["boundary_programs"] = nb
     ck.coverage["rule"] = ("syntactic case = a closed type generated from all constructors (ground, Dyn, Array, arrows at every polarity, record rows with closed/Dyn/variable tails, both dictionaries, enum rows with optional tail variable, forall of the three kinds incl. same-name and cross-kind shadowing, an opaque contract), depth <= 5, printed to source, parsed by the real parser; compared: skeleton of Type::contract and of Type::contract_static vs model. "
+                           "alias programs = tables in checks/c02_alias.py: monomorphic higher-order aliases (function, record/array/dictionary of functions) x wrappers (Array, Array Array, both dictionaries, record, bare) x typed implementations returning an argument x {conforming, bad argument to a returned element, bad result of a supplied element}; polymorphic aliases (Id, Konst, App, RowId) x contexts (rank-2 helper/result, enum-row forall callback/result, elided forall, plain argument/result) x {conforming, non-parametric untyped counterparts}; `:` and `|`; each also with the alias inlined; "
                            "probe = for a generated type T and one of its negative checks (value path + kind, from the model), `let v : T = <typed implementation synthesised from T> in <untyped context>` in which the two sides walk the path and the untyped side finally hands over a value failing exactly that check (checks/c02_probe.py); valid when the static-full run blames negatively, then the default run must too; when the skeleton of a real static contract differs from the model the same probes are run for every negative check of the smallest differing sub-annotations (search); "
                            "behavioural case = `let f : A -> B = fun x => std.deep_seq (x | Dyn) (res | B) in f arg`, the same with `|`, `let f : (A -> B) -> C = fun cb => std.deep_seq (cb (a0 | A)) (c0 | C) in f <callback | data>`, `let x : T = (v | T) in x` with first-order A, B, C generated as in C03 and arg/res/a0/c0 members or members mutated at one position (subvalue kind, field dropped/added/renamed, tag/arity); each run in default and static-full mode; plus the hand-written polymorphic corpus; non-trivial = has an arrow or a forall")
     ck.coverage["partial"] = "simplify_equiv is proved for first-order data and first-order arrows only; higher-order/polymorphic: simplify_keeps_negative + direct oracle (default vs static-full)"
